@@ -186,6 +186,36 @@ def mutants(src, fn, ops):
                 for arg in n.args:
                     if not isinstance(arg, ast.Starred):
                         yield 'UNCALL', n.lineno, desc(n, src.text(arg)), src.replace(a, b, '(' + src.text(arg) + ')')
+        # ---- behaviour-preserving rewrites (ops EQ*): every alarm on one of these is a FALSE alarm of the checker
+        if 'EQFLIP' in ops and isinstance(n, ast.If) and n.orelse and not (len(n.orelse) == 1 and isinstance(n.orelse[0], ast.If) and n.orelse[0].col_offset == n.col_offset):
+            # if c: A else: B  ->  if not (c): B else: A      (plain else only, elif chains are left alone)
+            a0 = src.pos(n.lineno, n.col_offset)
+            b0, b1 = src.span(n.body[0])[0], src.span(n.body[-1])[1]
+            o0, o1 = src.span(n.orelse[0])[0], src.span(n.orelse[-1])[1]
+            ta, tb = src.span(n.test)
+            head = src.data[a0:ta] + b'not (' + src.data[ta:tb] + b')' + src.data[tb:b0]
+            mid = src.data[b1:o0]
+            new = src.data[:a0] + head + src.data[o0:o1] + mid + src.data[b0:b1] + src.data[o1:]
+            yield 'EQFLIP', n.lineno, desc(n.test, 'branches swapped under not (...)'), new
+        if 'EQNOT' in ops and isinstance(n, ast.Compare) and len(n.ops) == 1 and isinstance(n.ops[0], (ast.IsNot, ast.NotIn, ast.NotEq)):
+            a, b = src.span(n)
+            pos = {ast.IsNot: 'is', ast.NotIn: 'in', ast.NotEq: '=='}[type(n.ops[0])]
+            yield 'EQNOT', n.lineno, desc(n, f'not (... {pos} ...)'), src.replace(a, b, f'(not ({src.text(n.left)} {pos} {src.text(n.comparators[0])}))')
+        if 'EQSWAP' in ops and isinstance(n, ast.Compare) and len(n.ops) == 1 and isinstance(n.ops[0], (ast.Lt, ast.LtE, ast.Gt, ast.GtE, ast.Eq, ast.NotEq)) \
+                and not any(isinstance(x, (ast.Call, ast.Await, ast.Yield)) for x in ast.walk(n)):
+            a, b = src.span(n)
+            rev = {ast.Lt: '>', ast.LtE: '>=', ast.Gt: '<', ast.GtE: '<=', ast.Eq: '==', ast.NotEq: '!='}[type(n.ops[0])]
+            yield 'EQSWAP', n.lineno, desc(n, 'operands swapped'), src.replace(a, b, f'(({src.text(n.comparators[0])}) {rev} ({src.text(n.left)}))')
+        if 'EQDM' in ops and isinstance(n, (ast.If, ast.While)) and isinstance(n.test, ast.BoolOp):
+            t = n.test
+            inner = ' or ' if isinstance(t.op, ast.And) else ' and '
+            a, b = src.span(t)
+            yield 'EQDM', n.lineno, desc(t, 'De Morgan'), src.replace(a, b, '(not (' + inner.join(f'(not ({src.text(v)}))' for v in t.values) + '))')
+        if 'EQCHAIN' in ops and isinstance(n, ast.Compare) and len(n.ops) == 2 and not any(isinstance(x, (ast.Call, ast.Await)) for x in ast.walk(n.comparators[0])):
+            a, b = src.span(n)
+            opt = {ast.Lt: '<', ast.LtE: '<=', ast.Gt: '>', ast.GtE: '>=', ast.Eq: '==', ast.NotEq: '!=', ast.Is: 'is', ast.IsNot: 'is not', ast.In: 'in', ast.NotIn: 'not in'}
+            m0 = src.text(n.comparators[0])
+            yield 'EQCHAIN', n.lineno, desc(n, 'chain split'), src.replace(a, b, f'(({src.text(n.left)} {opt[type(n.ops[0])]} {m0}) and ({m0} {opt[type(n.ops[1])]} {src.text(n.comparators[1])}))')
         if 'CONST' in ops and isinstance(n, ast.Constant) and isinstance(n.value, bool):
             a, b = src.span(n)
             yield 'CONST', n.lineno, desc(n, str(not n.value)), src.replace(a, b, str(not n.value))
@@ -367,12 +397,13 @@ def main():
     args = sys.argv[1:]
     suite = '--suite' in args
     neighbours = '--noneighbours' not in args
+    equiv = '--equiv' in args
     ops = {'DEL', 'NEG', 'CMP', 'UNLOCK', 'BOOL', 'EXC', 'UNCALL', 'CONST', 'SWAP'}
     out = '/tmp/mutants'
     props = []
     it = iter(args)
     for a in it:
-        if a in ('--suite', '--noneighbours'):
+        if a in ('--suite', '--noneighbours', '--equiv'):
             continue
         if a == '--ops':
             ops = set(next(it).split(','))
@@ -380,6 +411,9 @@ def main():
             out = next(it)
         else:
             props.append(a)
+    if equiv:
+        ops = {'EQFLIP', 'EQNOT', 'EQSWAP', 'EQDM', 'EQCHAIN'}
+        neighbours = False
     os.makedirs(out, exist_ok=True)
     shutil.rmtree(REPO, ignore_errors=True)
     os.makedirs(REPO)
@@ -396,6 +430,11 @@ def main():
         final = [m for m in surv if not suite or m.get('suite') == 'pass']
         if neighbours:
             run_neighbours(final)
+        if equiv:
+            print(f'{prop}: {n} behaviour-preserving rewrites, FALSE ALARMS {c1}, analysis errors {c2}')
+            for m in res:
+                if m['rc'] != 0:
+                    print(f"    {m['file']}:{m['line']} {m['func'].split('.')[-1]} {m['op']}: {m['desc'][:110]}  -> {m['keys'][:2]}")
         print(f'{prop}: {n} mutants, caught {c1}, analysis-error {c2}, survived check {len(surv)}' +
               (f', survived check and suite {len(final)}' if suite else ''))
         for m in res:
